@@ -211,6 +211,27 @@ def job(args):
             d = lhs - rhs
             ok = is_zero(d) if not extra else zero_excluding_ties(d, 'uu')
             ob(rule, construct, ok, f"generic cell: upwind - TVD(FL=1) - central = {fmt_rat(d, 8)}" if not ok else 'generic cell, uniform spacing', fi.loc())
+            # per axis a, with only the velocity component along a non-zero: the identity also holds in cells that are generic
+            # along a but lie in the first / last row along another axis (the limiter corrections of the a-faces there are
+            # interior corrections; a correction zeroed along the wrong axis shows here)
+            if wu.dim > 1:
+                def only_axis(expr, a):
+                    def fn(key):
+                        if isinstance(key, tuple) and key and key[0] in ('u', 'uu') and len(key) > 1 and key[1] != AX[a]:
+                            return Rat.const(0)
+                        return None
+                    return map_atoms(expr, fn)
+                for a_ in range(wu.dim):
+                    for b_ in range(wu.dim):
+                        if b_ == a_:
+                            continue
+                        for pos, nm in ((ONE, 'first'), (wu.N[b_], 'last')):
+                            Pc = tuple(pos if k == b_ else wu.t[k] for k in range(wu.dim))
+                            lhs_c = apply_row(wu.matrix_row(Mup, Pc), 'phi') - map_atoms(wu.vector_at(tvu, Pc), fl_to(1))
+                            d_c = only_axis(lhs_c - apply_row(wu.matrix_row(Mce, Pc), 'phi'), a_)
+                            ok_c = is_zero(d_c) if not extra else zero_excluding_ties(d_c, 'uu')
+                            ob(rule, construct, ok_c, (f"cell {F.cstr(Pc)} ({nm} row along {AX[b_]}), velocity along {AX[a_]} only: upwind - TVD(FL=1) - central = {fmt_rat(d_c, 8)}"
+                                                       if not ok_c else f"cell {F.cstr(Pc)}, velocity along {AX[a_]} only"), fi.loc())
         else:
             ob(rule, construct, False, 'matrix builders have layout issues', fi.loc())
     return dict(obs=obs, units=sorted(units), samples=samples, funcs=sorted(w.interp.funcs_seen | wu.interp.funcs_seen))
